@@ -67,6 +67,9 @@ partial def loop (h : IO.FS.Stream) (n m o e : Nat) : IO (Nat × Nat × Nat × N
         if mr != impl then
           IO.println s!"M\t{line}\tmodel={mr}"
           m := m + 1
+      if let some mr := v.mismatch then
+        IO.println s!"M\t{line}\tmodel={mr}"
+        m := m + 1
       if let some why := v.oracle then
         IO.println s!"O\t{line}\t{why}"
         o := o + 1
